@@ -134,23 +134,18 @@ Section Store.
     | (Ok _, b) => writer_close seg b
     end.
 
-  (* SegmentWriter::write_entry *)
+  (* SegmentWriter::write_entry: the record (header ++ payload) is handed to the BufWriter in
+     one write_all, then flush, then sync_data *)
   Definition write_entry (seg : N) (buf : bytes) (ver : N) (payload : bytes)
     : M (res serr unit * bytes) :=
     let p := PWal seg in
-    do! rb <- bw_write_all p buf (u64 ver) ;;
-    match rb with (Err _, b) => ret (Err EWalWrite, b) | (Ok _, b) =>
-    do! rb <- bw_write_all p b (H payload) ;;
-    match rb with (Err _, b) => ret (Err EWalWrite, b) | (Ok _, b) =>
-    do! rb <- bw_write_all p b (u32 (len payload)) ;;
-    match rb with (Err _, b) => ret (Err EWalWrite, b) | (Ok _, b) =>
-    do! rb <- bw_write_all p b payload ;;
+    do! rb <- bw_write_all p buf (enc_record H ver payload) ;;
     match rb with (Err _, b) => ret (Err EWalWrite, b) | (Ok _, b) =>
     do! rb <- bw_flush p b ;;
     match rb with (Err _, b) => ret (Err EWalIo, b) | (Ok _, b) =>
     do! r <- do_call (CSync p) ;;
     match r with Err _ => ret (Err EWalIo, b) | Ok _ => ret (Ok tt, b) end
-    end end end end end.
+    end end.
 
   (* WalManager::append_op: returns the version used *)
   Definition append_op (w : wal) (payload : bytes) : M (res serr N * wal) :=
